@@ -21,7 +21,7 @@ def reports(patch, prop):
         subprocess.run(['rsync', '-a', '--exclude', '.git', '/repo/', d + '/'], check=True)
         r = subprocess.run(['git', '-C', d, 'apply', '--whitespace=nowarn', patch], capture_output=True, text=True)
         if r.returncode: return None
-        r = subprocess.run([root + '/bin/mcpcheck', '-property', prop, '-repo', d, '-no-evidence', '-whole'], capture_output=True, text=True, env=env, cwd=root)
+        r = subprocess.run([os.environ.get('MCPCHECK_BIN', root + '/bin/mcpcheck'), '-property', prop, '-repo', d, '-no-evidence', '-whole'], capture_output=True, text=True, env=env, cwd=root)
         s = set()
         for l in r.stdout.splitlines():
             m = re.match(r'MUTANT-REPORT (\S+) (\S+) (\S+) \[violation\]', l)
